@@ -6,6 +6,7 @@ import (
 	"errors"
 	"fmt"
 	"os"
+	"runtime"
 	"strings"
 	"sync"
 	"sync/atomic"
@@ -514,6 +515,35 @@ func runCancelCase(t *testing.T, at int) (problems []string) {
 			t.Fatal(err)
 		}
 
+		// somebody else has been watching the runtime's input kind for longer and goes on watching: the runtime's own
+		// watch must still end with the runtime
+		obsCtx, obsCancel := context.WithCancel(context.Background())
+		defer obsCancel()
+
+		obsCh := make(chan state.Event, 64)
+		if err := inner.WatchKind(obsCtx, resource.NewMetadata("n1", "T", "", resource.VersionUndefined), obsCh); err != nil {
+			t.Fatal(err)
+		}
+
+		synctest.Wait()
+
+		watchGoroutines := func() int {
+			buf := make([]byte, 1<<20)
+			buf = buf[:runtime.Stack(buf, true)]
+
+			n := 0
+
+			for _, g := range strings.Split(string(buf), "\n\n") {
+				if strings.Contains(g, "inmem.(*ResourceCollection).WatchAll.func") && strings.Contains(g, "sync.(*Cond).Wait") {
+					n++
+				}
+			}
+
+			return n
+		}
+
+		watchersBefore := watchGoroutines()
+
 		var runErr error
 
 		done := make(chan struct{})
@@ -546,6 +576,25 @@ func runCancelCase(t *testing.T, at int) (problems []string) {
 
 		if n := cs.lateWrite.Load(); n > 0 {
 			problems = append(problems, fmt.Sprintf("write-after-return: %d write(s) were issued after Run had returned (cancelled at store call %d)", n, at))
+		}
+
+		// drain the observer's channel so that its own goroutine is parked waiting for changes, then count
+		for len(obsCh) > 0 {
+			<-obsCh
+		}
+
+		synctest.Wait()
+
+		defer func() {
+			// leave the bubble tidy whatever happened: end the observer, then commit one change so that every watcher still
+			// parked on the collection wakes up and notices that its context is gone
+			obsCancel()
+			inner.Create(context.Background(), newRes("n1", "T", "wakeup", "x")) //nolint:errcheck
+			synctest.Wait()
+		}()
+
+		if n := watchGoroutines(); n > watchersBefore {
+			problems = append(problems, fmt.Sprintf("watch-left-behind: %d watch goroutine(s) of the stopped runtime are still waiting on the collection after Run returned (another, older watcher exists on the same kind)", n-watchersBefore))
 		}
 		// goroutine leaks: synctest.Test fails the test if bubble goroutines are still blocked when the function returns
 	})
